@@ -79,6 +79,24 @@ def run_case(seed, tier, nlay, acc, only_layout=None):
     exp = S.to_json(project.normalize(mod))
     if base[0][1][0] != exp:
         acc.count('canonical_projection_differs_from_model(decided by C01)')
+    if only_layout is None or only_layout == -2:
+        # layout at a file boundary (MATLAB wraps several files as one text): how a non-last file ends - with or
+        # without a final newline, after a line comment, a block comment, blanks - is layout too (h1_C12_1)
+        first = 'class ZzFirst0 {\n  ZzFirst0();\n};'
+        ref = tool.outcome(lambda: tool.matlab_tree([first + '\n', canon])[0])
+        if ref[0] == 'ok':
+            for k, end in enumerate(FILE_ENDS):
+                if k % 3 != seed % 3 and only_layout is None:
+                    continue
+                got = tool.outcome(lambda: tool.matlab_tree([first + end, canon])[0])
+                acc.count('file_boundary_layouts_compared')
+                if got != ref:
+                    d = compare((base[0], base[1], ref), (base[0], base[1], got)) or {'what': 'matlab output differs'}
+                    d['what'] = 'end of a non-last interface file changes the MATLAB output: ' + d['what']
+                    d['first_file_end'] = end
+                    d['text'] = canon[:2000]
+                    out.append(({'layout': -2}, d))
+                    break
     for j in range(nlay):
         if only_layout is not None and j != only_layout:
             continue
@@ -105,6 +123,7 @@ def run_case(seed, tier, nlay, acc, only_layout=None):
 
 
 PAIRS = set()
+FILE_ENDS = ['', ' // end of file', '\n// end of file', ' /* end */', '\n\n', ' // a; class B {};', '\r\n', '\t', '\n/* x */ // y']
 
 
 def worker(ctx):
@@ -124,7 +143,7 @@ def replay(case, ctx):
         return [{'observed': s}] if s else []
     nlay = 8 if case['tier'] == 'thorough' else 4
     return [d for _, d in run_case(case['case_seed'], case['tier'], nlay, ctx.acc,
-                                   None if case['layout'] < 0 else case['layout'])]
+                                   None if case['layout'] == -1 else case['layout'])]
 
 
 def probes(ctx):
